@@ -202,10 +202,14 @@ def run(ctx):
     # the real local worker pool, with restarts of the pool (tracked ids of an earlier pool)
     gens += [(dict(backend="local", wfs=proj_check.WFS, jobs=12, env=3, faults=0, cmds=8, anyfs=True,
                    allow=["Run", "Status", "JobFail", "Cancel", "DeleteOutput", "PoolRestart"]), 26, n)]
+    # restarts in the middle of plain run/status histories: targets finished under the old pool keep their old
+    # ids while the new pool hands out ids to other targets
+    gens += [(dict(backend="local", wfs=proj_check.WFS, jobs=12, env=2, faults=0, cmds=8, anyfs=False,
+                   allow=["Run", "Status", "PoolRestart"]), 30, n)]
     designs.append(("pair-local", dict(backend="local", wfs=("pair",), jobs=4, env=2, faults=0, cmds=3, allow=ALLOW + ["PoolRestart"], interleave=True)))
     proj_check.run(
         ctx, mine=MINE, designs=designs, gens=gens, relevant={"JobEnd", "Purge", "Cancel"},
-        must_hit=("C08_state", "C08_id_roundtrip", "C08_no_sacct_when_disabled"),
+        must_hit=("C08_state", "C08_id_roundtrip", "C08_no_sacct_when_disabled", "C08_gone_job_falls_back"),
         rule="(a) every documented Slurm squeue/sacct, SGE and LSF state code x placement x accounting on/off x file state x "
         "state of another target's job, unrelated jobs in the queue, and 2100 tracked ids with the target's id in the 1st/2nd/3rd "
         "accounting batch (CodesGen, exhaustive); (b) TLC-simulated histories run/status/job transitions/failure and re-run/"
